@@ -679,6 +679,254 @@ class E(cohdl.Entity):
 RESERVED_OPTION = ["o", "a", "b", "clk", "sig", "foo", "s", "proc", "logic", "mem", "idx", "stage", "inner", "E", "SubA",
                    "x", "idle", "run", "phase", "q", "d", "p", "dbg", "active", "go"]
 
+# ---------------------------------------------------------------------------------------------------
+# ORDER-SENSITIVE designs: one emitted statement (or port / declaration) per element of every kind of container the
+# tracer or the library builds from user data, so that any change of an iteration order changes the bytes:
+# **kwargs iterated and forwarded (some parameters bound by keyword, several surplus keywords), std.Record construction
+# with keywords through a qualifier, dict literal / comprehension / keys() / values() / items(), set and frozenset of
+# int, sorted set of str, class __dict__ / vars(), std.add_entity_port loop, std.select dict branches, enum
+# iteration, entity instantiation with many keyword ports (architecture level and inline).
+# (an UNSORTED set of str iterated by the design itself is not in the pool: its order is hash-seed dependent by the
+#  semantics of Python, i.e. such a design is not a function of its text.)
+# ---------------------------------------------------------------------------------------------------
+O_KWARGS = '''from __future__ import annotations
+import cohdl
+from cohdl import std, Bit, BitVector, Unsigned, Signed, Port, Signal, Variable, Null, Full, true, false, enum
+
+def route(*, gate, **lanes):
+    for name, (target, source) in lanes.items():
+        if gate:
+            target <<= source
+        else:
+            target <<= std.zeros(len(source))
+
+def fwd(first, *, gate, **rest):
+    route(gate=gate, **rest)
+
+class E(cohdl.Entity):
+    clk = Port.input(Bit)
+    en = Port.input(Bit)
+    north = Port.input(BitVector[4])
+    east = Port.input(BitVector[4])
+    south = Port.input(BitVector[4])
+    west = Port.input(BitVector[4])
+    out_n = Port.output(BitVector[4])
+    out_e = Port.output(BitVector[4])
+    out_s = Port.output(BitVector[4])
+    out_w = Port.output(BitVector[4])
+    f_n = Port.output(BitVector[4])
+    f_e = Port.output(BitVector[4])
+    f_s = Port.output(BitVector[4])
+
+    def architecture(self):
+        @std.sequential(std.Clock(self.clk))
+        def proc_routes():
+            route(gate=self.en, north=(self.out_n, self.north), east=(self.out_e, self.east),
+                  south=(self.out_s, self.south), west=(self.out_w, self.west))
+
+        @std.sequential(std.Clock(self.clk))
+        def proc_fwd():
+            fwd(0, gate=self.en, zulu=(self.f_n, self.north), alpha=(self.f_e, self.east), mike=(self.f_s, self.south))
+'''
+
+O_RECORD = '''from __future__ import annotations
+import cohdl
+from cohdl import std, Bit, BitVector, Unsigned, Signed, Port, Signal, Variable, Null, Full, true, false, enum
+
+class Pixel(std.Record):
+    red: BitVector[4]
+    green: BitVector[4]
+    blue: BitVector[4]
+    alpha: BitVector[4]
+
+class E(cohdl.Entity):
+    clk = Port.input(Bit)
+    a = Port.input(BitVector[4])
+    b = Port.input(BitVector[4])
+    c = Port.input(BitVector[4])
+    d = Port.input(BitVector[4])
+    pr = Port.output(BitVector[4])
+    pg = Port.output(BitVector[4])
+    pb = Port.output(BitVector[4])
+    pa = Port.output(BitVector[4])
+    sr = Port.output(BitVector[4])
+    sa = Port.output(BitVector[4])
+
+    def architecture(self):
+        sig = std.Signal[Pixel](red=Null, green=Null, blue=Null, alpha=Null)
+
+        @std.sequential(std.Clock(self.clk))
+        def proc_pixel():
+            pixel = std.Variable[Pixel](red=self.a, green=self.b, blue=self.c, alpha=self.d)
+            self.pr <<= pixel.red
+            self.pg <<= pixel.green
+            self.pb <<= pixel.blue
+            self.pa <<= pixel.alpha
+            sig.next = pixel
+            self.sr <<= sig.red
+            self.sa <<= sig.alpha
+'''
+
+O_DICTSET = '''from __future__ import annotations
+import cohdl
+from cohdl import std, Bit, BitVector, Unsigned, Signed, Port, Signal, Variable, Null, Full, true, false, enum
+
+class E(cohdl.Entity):
+    clk = Port.input(Bit)
+    a = Port.input(BitVector[4])
+    b = Port.input(BitVector[4])
+    c = Port.input(BitVector[4])
+    o1 = Port.output(BitVector[4])
+    o2 = Port.output(BitVector[4])
+    o3 = Port.output(BitVector[4])
+    p1 = Port.output(BitVector[4])
+    p2 = Port.output(BitVector[4])
+    p3 = Port.output(BitVector[4])
+    q = Port.output(Unsigned[8], default=Null)
+    r = Port.output(Unsigned[8], default=Null)
+
+    def architecture(self):
+        @std.sequential(std.Clock(self.clk))
+        def proc_dict():
+            table = {"zeta": (self.o1, self.a), "alpha": (self.o2, self.b), "mid": (self.o3, self.c)}
+            for key in table:
+                tgt, src = table[key]
+                tgt <<= src
+            for tgt, src in table.values():
+                tgt <<= ~src
+            for key, (tgt, src) in table.items():
+                tgt <<= src
+
+        @std.sequential(std.Clock(self.clk))
+        def proc_comp():
+            comp = {name: pair for name, pair in [("yy", (self.p1, self.a)), ("bb", (self.p2, self.b)), ("mm", (self.p3, self.c))]}
+            for name in comp.keys():
+                comp[name][0].next = comp[name][1]
+
+        ints = {17, 3, 250, 64, 5}
+        frozen = frozenset([9, 1, 33])
+        names = sorted({"tango", "alpha", "kilo", "echo"})
+
+        @std.sequential(std.Clock(self.clk))
+        def proc_set():
+            acc = Variable[Unsigned[8]](0)
+            for n in ints:
+                acc.value = acc + n
+            self.q <<= acc
+            acc2 = Variable[Unsigned[8]](0)
+            for n in frozen:
+                acc2.value = acc2 + n
+            for n in names:
+                acc2.value = acc2 + len(n)
+            self.r <<= acc2
+'''
+
+O_CLASSDICT = '''from __future__ import annotations
+import cohdl
+from cohdl import std, Bit, BitVector, Unsigned, Signed, Port, Signal, Variable, Null, Full, true, false, enum
+
+class Cfg:
+    zulu = 3
+    alpha = 5
+    mike = 9
+    echo = 1
+
+class E(cohdl.Entity):
+    clk = Port.input(Bit)
+    a = Port.input(Unsigned[8])
+    o = Port.output(Unsigned[8], default=Null)
+
+    def architecture(self):
+        consts = {k: v for k, v in vars(Cfg).items() if not k.startswith("_")}
+        ports = {}
+        for k, v in Cfg.__dict__.items():
+            if not k.startswith("_"):
+                ports[k] = std.add_entity_port(self, Port.output(Unsigned[8], name="c_" + k))
+
+        @std.sequential(std.Clock(self.clk))
+        def proc():
+            acc = Variable[Unsigned[8]](self.a)
+            for k, v in consts.items():
+                acc.value = acc + v
+                ports[k].next = acc
+            self.o <<= acc
+'''
+
+O_SELECT = '''from __future__ import annotations
+import cohdl
+from cohdl import std, Bit, BitVector, Unsigned, Signed, Port, Signal, Variable, Null, Full, true, false, enum
+
+class Phase(enum.Enum):
+    idle = enum.auto()
+    load = enum.auto()
+    run = enum.auto()
+    done = enum.auto()
+
+class E(cohdl.Entity):
+    clk = Port.input(Bit)
+    sel = Port.input(Unsigned[2])
+    a = Port.input(BitVector[4])
+    b = Port.input(BitVector[4])
+    c = Port.input(BitVector[4])
+    o = Port.output(BitVector[4])
+    cnt = Port.output(Unsigned[4], default=Null)
+
+    def architecture(self):
+        phase = Signal[Phase](Phase.idle, name="phase")
+
+        @std.concurrent
+        def logic():
+            self.o <<= std.select(self.sel, {2: self.c, 0: self.a, 1: self.b}, default=std.zeros(4))
+
+        @std.sequential(std.Clock(self.clk))
+        def proc():
+            n = Variable[Unsigned[4]](0)
+            for member in Phase:
+                if phase == member:
+                    n.value = n + 1
+            self.cnt <<= n
+            phase.next = Phase.run
+'''
+
+O_MANYPORTS = '''from __future__ import annotations
+import cohdl
+from cohdl import std, Bit, BitVector, Unsigned, Signed, Port, Signal, Variable, Null, Full, true, false, enum
+
+class Sub(cohdl.Entity):
+    zulu = Port.input(Bit)
+    alpha = Port.input(Bit)
+    mike = Port.input(Bit)
+    echo = Port.output(Bit)
+    bravo = Port.output(Bit)
+    xray = Port.output(Bit)
+
+    def architecture(self):
+        @std.concurrent
+        def logic():
+            self.echo <<= self.zulu
+            self.bravo <<= self.alpha
+            self.xray <<= self.mike
+
+class E(cohdl.Entity):
+    a = Port.input(Bit)
+    b = Port.input(Bit)
+    c = Port.input(Bit)
+    x = Port.output(Bit)
+    y = Port.output(Bit)
+    z = Port.output(Bit)
+    x2 = Port.output(Bit)
+    y2 = Port.output(Bit)
+    z2 = Port.output(Bit)
+
+    def architecture(self):
+        Sub(xray=self.z, mike=self.c, zulu=self.a, echo=self.x, alpha=self.b, bravo=self.y)
+
+        @std.concurrent
+        def logic():
+            Sub(bravo=self.y2, zulu=self.a, xray=self.z2, alpha=self.b, echo=self.x2, mike=self.c)
+'''
+
+
 def _front(arch, trace):
     return f"<conv <arch:E {arch} > <blk {trace} > >"
 
@@ -699,6 +947,12 @@ POOL = {
     "a_inline": (A_INLINE, "ok", None, "<conv <arch:E > <blk <apply <arch:Inv > > > <blk <blk > > > " + IR.format("O:10")),
     "a_waitfor": (A_WAITFOR, "ok", None, _front("F:11", "<ctx:2 U <apply > >") + " " + IR.format("<sm O:11 >")),
     "a_enum": (A_ENUM, "ok", None, _front("F:14", SEQ.format(0)) + " " + IR.format("O:19") + " <scope D:idle D:run D:phase >"),
+    "o_kwargs": (O_KWARGS, "ok", None, _front("F:20", SEQ.format(0) + " " + SEQ.format(0)) + " " + IR.format("O:20")),
+    "o_record": (O_RECORD, "ok", None, _front("F:21", SEQ.format(0)) + " " + IR.format("O:21")),
+    "o_dictset": (O_DICTSET, "ok", None, _front("F:22", SEQ.format(0) + " " + SEQ.format(0) + " " + SEQ.format(0)) + " " + IR.format("O:22")),
+    "o_classdict": (O_CLASSDICT, "ok", None, _front("A:c_zulu A:c_alpha A:c_mike A:c_echo F:23", SEQ.format(0)) + " " + IR.format("O:23")),
+    "o_select": (O_SELECT, "ok", None, _front("F:24", "<apply > " + SEQ.format(0)) + " " + IR.format("O:24")),
+    "o_manyports": (O_MANYPORTS, "ok", None, "<conv <arch:E <arch:Sub > > <blk <apply <arch:Sub > > <blk > > <blk <blk > > > " + IR.format("O:25")),
     "a_types": (A_TYPES, "ok", None, _front("T:8 T:5 T:9 T:7 T:2", SEQ.format(0)) + " " + IR.format("O:12")),
     "dyn": (DYN, "ok", None, _front(_DYN_PORTS2 + " F:13", SEQ.format(0)) + " " + IR.format("O:13")),
     "dyn@LANES=3": (DYN, "ok", None, _front(_DYN_PORTS3 + " F:13", SEQ.format(0)) + " " + IR.format("O:13")),
